@@ -51,15 +51,6 @@ Inductive node :=
 | NSlice (c : node) (start stop : Z) | NSliceCurrent (start stop : Z)
 | NSliceStep (c : node) (start stop step : Z) | NSliceStepCurrent (start stop step : Z).
 
-(* internal/parser/project.go: isProjectNode *)
-Definition is_project_node (n : node) : bool :=
-  match n with
-  | NFilterAndProject _ _ _ | NFilterAndProjectCurrent _ _
-  | NFlattenAndProject _ _ | NFlattenAndProjectCurrent _
-  | NProjectArray _ _ | NProjectArrayCurrent _ => true
-  | _ => false
-  end.
-
 (* internal/evaluator/slice.go: isSliceNode *)
 Definition is_slice_node (n : node) : bool :=
   match n with
